@@ -27,7 +27,7 @@ ASSUME = ["the in-process hook calls the same lex/parse/check/format entry point
           "a process that is still running after 120 s on <= 64 KiB of input is a hang"]
 BATCH = 120
 FLOOR = {"quick": 150, "thorough": 400}
-BUDGET = {"quick": 45, "thorough": 780}
+BUDGET = {"quick": 45, "thorough": 600}
 
 CLI_PERCENT = 2.0
 CLI_TIMEOUT = 30
@@ -79,7 +79,7 @@ def cli_verdicts(sc, src_bytes, has_parse_errors, only=None, skip=(), stop_at_fi
         r = _cli_one(args, cwd=sc.dir)
         c = r.cls
         if c in core.CRASH or c.startswith("signal"):
-            problems.append((name, core.crash_sig(r), r.brief()))
+            problems.append((name, F.stable_sig(core.crash_sig(r)), r.brief()))
         elif c == "timeout":
             problems.append((name, "hang", r.brief()))
         elif name == "run" and has_parse_errors and not (r.rc == 1 and "arse error" in r.err):
@@ -101,7 +101,7 @@ def invalid_utf8_verdict(sc, raw):
                        ("run", ["run", path])):
         r = _cli_one(args, cwd=sc.dir)
         if r.cls in core.CRASH or r.cls.startswith("signal"):
-            bad.append((name, core.crash_sig(r), r.brief()))
+            bad.append((name, F.stable_sig(core.crash_sig(r)), r.brief()))
         elif r.cls == "timeout":
             bad.append((name, "hang", r.brief()))
         elif not (r.rc == 1 and "not valid UTF-8" in r.err):
@@ -147,7 +147,11 @@ def run_batch(cases):
                                     stop_at_first=hit is not None)
             detail = {"src": src if len(src) < 3000 else src[:1500] + " ...[%d chars]... " % len(src) + src[-300:],
                       "cls": c["cls"]}
-            if problems:
+            if problems and problems[0][1] == "hang" and len(src.encode("utf-8", "replace")) > 65536:
+                # only time can tell, and the time rule (ASSUME) is stated for inputs up to 64 KiB
+                res[i] = {"status": "inconclusive", "key": None, "detail": dict(detail, why="slow on a large input",
+                                                                                 cli=[(p[0], p[1]) for p in problems])}
+            elif problems:
                 name, sig, brief = problems[0]
                 res[i] = {"status": "violated", "key": key, "sig": sig,
                           "detail": dict(detail, cli=[(p[0], p[1]) for p in problems], first=brief,
